@@ -395,6 +395,112 @@ pub fn doc_to_ast(doc: &Doc) -> gt::ExecutableDocument {
     gt::ExecutableDocument { operations, fragments }
 }
 
+// ---- the parser's AST back to the abstract document (for texts: corpus, byte stream)
+
+fn ast_to_val(v: &GV) -> Option<GVal> {
+    Some(match v {
+        GV::Variable(n) => GVal::Var(n.to_string()),
+        GV::Null => GVal::Null,
+        GV::Number(n) => {
+            if let Some(i) = n.as_i64() {
+                GVal::Int(i as i128)
+            } else if let Some(u) = n.as_u64() {
+                GVal::Int(u as i128)
+            } else {
+                GVal::Float(n.to_string())
+            }
+        }
+        GV::String(x) => GVal::Str(x.clone()),
+        GV::Boolean(b) => GVal::Bool(*b),
+        GV::Enum(n) => GVal::Enum(n.to_string()),
+        GV::List(l) => GVal::List(l.iter().map(ast_to_val).collect::<Option<_>>()?),
+        GV::Object(m) => GVal::Object(m.iter().map(|(k, v)| Some((k.to_string(), ast_to_val(v)?))).collect::<Option<_>>()?),
+        GV::Binary(_) => return None,
+    })
+}
+fn ast_to_dirs(ds: &[Positioned<gt::Directive>]) -> Option<Vec<Dir>> {
+    ds.iter()
+        .map(|d| {
+            Some(Dir {
+                name: d.node.name.node.to_string(),
+                args: d
+                    .node
+                    .arguments
+                    .iter()
+                    .map(|(n, v)| Some(Arg { name: n.node.to_string(), value: ast_to_val(&v.node)? }))
+                    .collect::<Option<_>>()?,
+            })
+        })
+        .collect()
+}
+fn ast_to_sels(ss: &gt::SelectionSet) -> Option<Vec<Sel>> {
+    ss.items
+        .iter()
+        .map(|s| {
+            Some(match &s.node {
+                gt::Selection::Field(f) => Sel::Field(FieldSel {
+                    alias: f.node.alias.as_ref().map(|a| a.node.to_string()),
+                    name: f.node.name.node.to_string(),
+                    args: f
+                        .node
+                        .arguments
+                        .iter()
+                        .map(|(n, v)| Some(Arg { name: n.node.to_string(), value: ast_to_val(&v.node)? }))
+                        .collect::<Option<_>>()?,
+                    dirs: ast_to_dirs(&f.node.directives)?,
+                    sels: ast_to_sels(&f.node.selection_set.node)?,
+                }),
+                gt::Selection::FragmentSpread(fs) => {
+                    Sel::Spread { name: fs.node.fragment_name.node.to_string(), dirs: ast_to_dirs(&fs.node.directives)? }
+                }
+                gt::Selection::InlineFragment(i) => Sel::Inline {
+                    tc: i.node.type_condition.as_ref().map(|t| t.node.on.node.to_string()),
+                    dirs: ast_to_dirs(&i.node.directives)?,
+                    sels: ast_to_sels(&i.node.selection_set.node)?,
+                },
+            })
+        })
+        .collect()
+}
+fn ast_to_op(o: &gt::OperationDefinition) -> Option<Op> {
+    Some(Op {
+        kind: match o.ty {
+            gt::OperationType::Query => 'q',
+            gt::OperationType::Mutation => 'm',
+            gt::OperationType::Subscription => 's',
+        },
+        nvars: o.variable_definitions.len(),
+        dirs: ast_to_dirs(&o.directives)?,
+        sels: ast_to_sels(&o.selection_set.node)?,
+    })
+}
+/// The abstract document of a parsed text (operations and fragments sorted by name: the maps'
+/// iteration order is irrelevant to the outcome class).
+pub fn ast_to_doc(doc: &gt::ExecutableDocument) -> Option<Doc> {
+    let ops = match &doc.operations {
+        gt::DocumentOperations::Single(o) => Ops::Single(ast_to_op(&o.node)?),
+        gt::DocumentOperations::Multiple(m) => {
+            let mut v: Vec<(String, Op)> = m.iter().map(|(n, o)| Some((n.to_string(), ast_to_op(&o.node)?))).collect::<Option<_>>()?;
+            v.sort_by(|a, b| a.0.cmp(&b.0));
+            Ops::Multi(v)
+        }
+    };
+    let mut frags: Vec<Frag> = doc
+        .fragments
+        .iter()
+        .map(|(n, f)| {
+            Some(Frag {
+                name: n.to_string(),
+                tc: f.node.type_condition.node.on.node.to_string(),
+                dirs: ast_to_dirs(&f.node.directives)?,
+                sels: ast_to_sels(&f.node.selection_set.node)?,
+            })
+        })
+        .collect::<Option<_>>()?;
+    frags.sort_by(|a, b| a.name.cmp(&b.name));
+    Some(Doc { ops, frags })
+}
+
 // ---- rendering as GraphQL text (None: this abstract document is not the image of any text)
 
 fn is_name(s: &str) -> bool {
@@ -718,9 +824,95 @@ fn normalized_debug(doc: &gt::ExecutableDocument) -> String {
 
 const NUMBERS_SDL: &str = include_str!("/repo/trustfall_core/test_data/schemas/numbers.graphql");
 
+const DIRECTIVES_SDL: &str = "
+directive @filter(op: String!, value: [String!]) repeatable on FIELD | INLINE_FRAGMENT
+directive @tag(name: String) repeatable on FIELD
+directive @output(name: String) repeatable on FIELD
+directive @optional on FIELD
+directive @recurse(depth: Int!) on FIELD
+directive @fold on FIELD
+directive @transform(op: String!) repeatable on FIELD
+";
+
+/// A schema exercising what `numbers` lacks: non-orderable properties (Boolean, ID), Float, a
+/// 30-level and a 29-level list property, parameters with list/string/bool types, defaults and
+/// nullability, a three-level interface hierarchy with narrowed edge types (every case of
+/// `get_recurse_implicit_coercion`), a custom scalar definition, a query type that implements an
+/// interface.
+const C10A_BODY: &str = "
+schema { query: Root }
+scalar Date
+type Root {
+  A(x: Int, y: Int! = 3): A
+  AList(ids: [Int!], tag: String = \"t\"): [A!]
+  B: B
+  Mid: Mid
+  Leaf: Leaf!
+  Other(flag: Boolean!): [Other]
+}
+type A {
+  flag: Boolean
+  id: ID!
+  score: Float
+  names: [String!]!
+  deep: [[[[[[[[[[[[[[[[[[[[[[[[[[[[[[Int]]]]]]]]]]]]]]]]]]]]]]]]]]]]]]
+  deep29: [[[[[[[[[[[[[[[[[[[[[[[[[[[[[Int]]]]]]]]]]]]]]]]]]]]]]]]]]]]]
+  next(p: [Int!] = [1], q: String = \"a\", r: Boolean!): A
+  toB: B
+  list: [A!]!
+}
+interface B {
+  b: Int
+  nextB: B
+  toLeaf: Leaf
+}
+interface Mid implements B {
+  b: Int
+  nextB: B
+  toLeaf: Leaf
+  m: String
+  nextMid: Mid
+  x: B
+}
+type Leaf implements Mid & B {
+  b: Int
+  nextB: B
+  toLeaf: Leaf
+  m: String
+  nextMid: Mid
+  x: Mid
+  leafOnly: Leaf
+  up: Mid
+}
+type Other implements B {
+  b: Int
+  nextB: B
+  toLeaf: Leaf
+  flag: Boolean!
+}
+";
+
+/// Accepted by `Schema::parse` although an edge declares the same parameter twice (N-5).
+const C10DUP_BODY: &str = "
+schema { query: Root }
+type Root {
+  A(x: Int, x: Int): A
+  Fine: A
+}
+type A {
+  v: Int
+  again(p: Int!, p: Int!): A
+}
+";
+
 fn schema_sdl(id: &str) -> Option<&'static str> {
+    use std::sync::OnceLock;
+    static C10A: OnceLock<String> = OnceLock::new();
+    static C10DUP: OnceLock<String> = OnceLock::new();
     match id {
         "numbers" => Some(NUMBERS_SDL),
+        "c10a" => Some(C10A.get_or_init(|| format!("{DIRECTIVES_SDL}{C10A_BODY}")).as_str()),
+        "c10dup" => Some(C10DUP.get_or_init(|| format!("{DIRECTIVES_SDL}{C10DUP_BODY}")).as_str()),
         _ => None,
     }
 }
@@ -770,6 +962,7 @@ pub struct TypeInfo {
 pub struct SchemaInfo {
     pub id: String,
     pub query_type: String,
+    pub scalars: Vec<String>,
     pub types: Vec<TypeInfo>,
 }
 
@@ -792,6 +985,7 @@ impl SchemaInfo {
         let doc = async_graphql_parser::parse_schema(schema_sdl(id).unwrap()).unwrap();
         let mut query_type = String::new();
         let mut types = vec![];
+        let mut scalars = vec![];
         for def in doc.definitions {
             match def {
                 gt::TypeSystemDefinition::Schema(s) => query_type = s.node.query.unwrap().node.to_string(),
@@ -799,6 +993,10 @@ impl SchemaInfo {
                     let (is_interface, implements, fields) = match &t.node.kind {
                         gt::TypeKind::Object(o) => (false, &o.implements, &o.fields),
                         gt::TypeKind::Interface(i) => (true, &i.implements, &i.fields),
+                        gt::TypeKind::Scalar => {
+                            scalars.push(t.node.name.node.to_string());
+                            continue;
+                        }
                         _ => continue,
                     };
                     types.push(TypeInfo {
@@ -827,7 +1025,56 @@ impl SchemaInfo {
                 _ => {}
             }
         }
-        SchemaInfo { id: id.to_string(), query_type, types }
+        SchemaInfo { id: id.to_string(), query_type, scalars, types }
+    }
+    /// the `(schema …)` s-expression sent to the model
+    pub fn view_sexp(&self) -> Sexp {
+        fn ty(t: &TyRef) -> Sexp {
+            let mut v = vec![Sexp::atom(t.base.clone())];
+            v.extend(t.nullable.iter().map(|n| Sexp::atom(if *n { "1" } else { "0" })));
+            Sexp::list(v)
+        }
+        let types = self
+            .types
+            .iter()
+            .map(|t| {
+                Sexp::list(vec![
+                    Sexp::atom("t"),
+                    Sexp::atom(t.name.clone()),
+                    Sexp::atom(if t.is_interface { "1" } else { "0" }),
+                    Sexp::list(t.implements.iter().map(|i| Sexp::atom(i.clone())).collect()),
+                    Sexp::list(
+                        t.fields
+                            .iter()
+                            .map(|f| {
+                                Sexp::list(vec![
+                                    Sexp::atom(f.name.clone()),
+                                    ty(&f.ty),
+                                    Sexp::list(
+                                        f.params
+                                            .iter()
+                                            .map(|p| {
+                                                Sexp::list(vec![
+                                                    Sexp::atom(p.name.clone()),
+                                                    ty(&p.ty),
+                                                    Sexp::atom(if p.has_default { "1" } else { "0" }),
+                                                ])
+                                            })
+                                            .collect(),
+                                    ),
+                                ])
+                            })
+                            .collect(),
+                    ),
+                ])
+            })
+            .collect();
+        Sexp::list(vec![
+            Sexp::atom("schema"),
+            Sexp::atom(self.query_type.clone()),
+            Sexp::list(self.scalars.iter().map(|x| Sexp::atom(x.clone())).collect()),
+            Sexp::list(types),
+        ])
     }
     fn ty(&self, name: &str) -> Option<&TypeInfo> {
         self.types.iter().find(|t| t.name == name)
@@ -1034,9 +1281,61 @@ impl<'a> Gen<'a> {
     }
 }
 
+fn used_tags(ss: &[Sel], out: &mut std::collections::BTreeSet<String>) {
+    for s in ss {
+        match s {
+            Sel::Field(f) => {
+                for d in &f.dirs {
+                    if d.name == "filter" {
+                        for a in &d.args {
+                            if let GVal::List(l) = &a.value {
+                                for x in l {
+                                    if let GVal::Str(t) = x {
+                                        if let Some(n) = t.strip_prefix('%') {
+                                            out.insert(n.to_string());
+                                        }
+                                    }
+                                }
+                            }
+                        }
+                    }
+                }
+                used_tags(&f.sels, out);
+            }
+            Sel::Inline { sels, .. } => used_tags(sels, out),
+            Sel::Spread { .. } => {}
+        }
+    }
+}
+fn strip_unused_tags(ss: &mut [Sel], used: &std::collections::BTreeSet<String>) {
+    for s in ss {
+        match s {
+            Sel::Field(f) => {
+                f.dirs.retain(|d| {
+                    d.name != "tag"
+                        || d.args.iter().any(|a| matches!(&a.value, GVal::Str(n) if used.contains(n)))
+                });
+                strip_unused_tags(&mut f.sels, used);
+            }
+            Sel::Inline { sels, .. } => strip_unused_tags(sels, used),
+            Sel::Spread { .. } => {}
+        }
+    }
+}
+
 pub fn gen_valid(rng: &mut Rng, si: &SchemaInfo) -> Doc {
+    let keep_unused = rng.chance(1, 10);
     let mut g = Gen { rng, si, counter: 0, tags: vec![] };
-    g.doc()
+    let mut doc = g.doc();
+    if !keep_unused {
+        // unused tags are an error: drop them so that most generated queries compile
+        if let Ops::Single(o) = &mut doc.ops {
+            let mut used = Default::default();
+            used_tags(&o.sels, &mut used);
+            strip_unused_tags(&mut o.sels, &used);
+        }
+    }
+    doc
 }
 
 // ---- mutation stream
@@ -1602,7 +1901,7 @@ impl Prop for C10 {
     }
     fn generate(&self, tier: Tier, rng: &mut Rng) -> Vec<Case> {
         let si = SchemaInfo::load("numbers");
-        let (n_valid, n_mut, n_bytes) = if tier == Tier::Quick { (1500, 6000, 3000) } else { (15000, 80000, 40000) };
+        let (n_valid, n_mut, n_bytes) = if tier == Tier::Quick { (3000, 20000, 8000) } else { (30000, 250000, 80000) };
         let mut out = vec![];
         for _ in 0..n_valid {
             let doc = gen_valid(rng, &si);
